@@ -70,14 +70,22 @@ def _should_desanitize(attr: Any) -> bool:
     return False
 
 
+def _literal_eval_or_keep(attr: str) -> Any:
+    """Evaluate a sanitized attribute; strings that are no Python literal are kept as they are."""
+    try:
+        return literal_eval(attr)
+    except (ValueError, SyntaxError):
+        return attr
+
+
 def _desanitize_attrs_nc(dt: xr.DataTree) -> xr.DataTree:
     """Desanitize both node-level and variable-level attrs from strings for netcdf."""
     for node in dt.subtree:
         for key, attr in node.attrs.items():
             if _should_desanitize(attr):
-                node.attrs[key] = literal_eval(attr)
+                node.attrs[key] = _literal_eval_or_keep(attr)
         for v in node.variables:
             for key, attr in node[v].attrs.items():
                 if _should_desanitize(attr):
-                    node[v].attrs[key] = literal_eval(attr)
+                    node[v].attrs[key] = _literal_eval_or_keep(attr)
     return dt
